@@ -75,6 +75,8 @@ func checkC10(c *Ctx) {
 		"stub-e":  func() *party { return stubParty([]*age.Stanza{greaseStanza(c.rng)}, []string{}, true, false) },
 	}
 	kinds := []string{"scrypt", "scrypt2", "x25519", "sshed", "stub", "stub-l", "stub-e"}
+	// the passphrase recipient (the one native recipient with labels): a failed entropy read must abort Encrypt
+	c.randFaultSweep(&scenario{parties: []*party{c.freshParty("scrypt")}, plain: c.rng.bytes(10), tape: c.rng.bytes(200)})
 	maxLen := c.vol(3, 4)
 	var rec func(list []string)
 	rec = func(list []string) {
@@ -184,6 +186,31 @@ func checkC10(c *Ctx) {
 			}
 		}
 	}
+	// (b4) whole files through age.Decrypt: a header in which the scrypt stanza has company of ANY type
+	// (correct header MAC, so that nothing but the passphrase rule can refuse it)
+	for _, ty := range []string{"grease", "x-grease", "a-grease", "scrypt-grease", "grease-x", "X25519", "stub", "ssh-rsa"} {
+		for pos := 0; pos < 2; pos++ {
+			sst := mkStanza(4)
+			other := &format.Stanza{Type: ty, Args: []string{"x"}, Body: c.rng.bytes(c.rng.intn(40))}
+			h := &format.Header{}
+			if pos == 0 {
+				h.Recipients = []*format.Stanza{other, (*format.Stanza)(sst)}
+			} else {
+				h.Recipients = []*format.Stanza{(*format.Stanza)(sst), other}
+			}
+			h.MAC = macFor(fileKey, h)
+			file := joinFile(h, c.rng.bytes(16+30))
+			id, _ := age.NewScryptIdentity(pass)
+			id.SetMaxWorkFactor(10)
+			impl, out, _ := decryptImpl(bytes.NewReader(file), false, []age.Identity{id})
+			model := c.decryptModel(file, false, []string{lst(":scrypt", hxs(pass), num(10))})
+			in := map[string]interface{}{"other_stanza_type": ty, "scrypt_at": 1 - pos}
+			c.Compare("age.Decrypt(scrypt stanza with company)~Age.decrypt_open", in, impl, model)
+			c.Oracle("scrypt-stanza-not-alone-is-fatal-without-derivation", parseAll(impl)[0].list[0].atom != ":ok" && len(out) == 0, "scrypt-not-alone-file", in, "Decrypt returned a reader for a passphrase header with a second stanza of type "+ty)
+			c.count("file-scrypt-with-company")
+			c.note(fmt.Sprintf("company:%s:%d", ty, pos), true)
+		}
+	}
 	// (b3) one identity VALUE across calls: a successful Unwrap must not change what later calls accept
 	for _, max := range []int{6, 9} {
 		id, _ := age.NewScryptIdentity(pass)
@@ -280,6 +307,8 @@ func checkC10(c *Ctx) {
 			{"scrypt-last-of-2", []*age.Stanza{x, st}, false},
 			{"scrypt-middle-of-3", []*age.Stanza{x, st, greaseStanza(c.rng)}, false},
 			{"two-scrypt", []*age.Stanza{st, mkStanza(4)}, false},
+			{"scrypt-then-x-grease", []*age.Stanza{st, {Type: "x-grease", Args: []string{"x"}, Body: make([]byte, 8)}}, false},
+			{"grease-then-scrypt", []*age.Stanza{{Type: "grease", Args: []string{"x"}, Body: make([]byte, 8)}, st}, false},
 			{"no-scrypt", []*age.Stanza{x}, false},
 			{"work-factor-23", []*age.Stanza{{Type: st.Type, Args: []string{st.Args[0], "23"}, Body: st.Body}}, true},
 			{"work-factor-30", []*age.Stanza{{Type: st.Type, Args: []string{st.Args[0], "30"}, Body: st.Body}}, true},
@@ -372,6 +401,8 @@ func checkC11(c *Ctx) {
 		{"absent", false, nil}, {"empty", true, []string{}}, {"a", true, []string{"a"}}, {"b", true, []string{"b"}},
 		{"ab", true, []string{"a", "b"}}, {"ba", true, []string{"b", "a"}}, {"abc", true, []string{"a", "b", "c"}}, {"aa", true, []string{"a", "a"}},
 	}
+	// the passphrase recipient (the one native recipient that declares labels): a failed entropy read inside it must abort Encrypt
+	c.randFaultSweep(&scenario{parties: []*party{c.freshParty("scrypt")}, plain: c.rng.bytes(10), tape: c.rng.bytes(200)})
 	maxLen := c.vol(3, 4)
 	var rec func(list []int)
 	rec = func(list []int) {
